@@ -1,0 +1,59 @@
+//! Verification-only surface (compiled only with
+//! `--cfg isographlabs_isograph_verif`). Re-exports crate-private pieces of the
+//! language server so that an external driver can run the real notification
+//! handlers, request handlers and the diagnostics computation of the debounce
+//! tick against an `LspState` it owns, without sockets or timers. Purely
+//! additive: nothing here is reachable when the cfg is off.
+#![allow(clippy::mutable_key_type)]
+
+use std::{collections::BTreeSet, ops::ControlFlow};
+
+use isograph_schema::{CompilationProfile, validate_entire_schema};
+use lsp_types::Uri;
+use prelude::ErrClone;
+
+pub use crate::format::{char_index_to_position, on_format};
+pub use crate::goto_definition::on_goto_definition;
+pub use crate::hover::{LineChar, get_iso_literal_extraction_from_text_position_params, on_hover};
+pub use crate::location_utils::isograph_location_to_lsp_location;
+pub use crate::lsp_runtime_error::LSPRuntimeError;
+pub use crate::lsp_state::LspState;
+pub use crate::semantic_tokens::{delta_line_delta_start, on_semantic_token_full_request};
+pub use crate::text_document::{
+    on_did_change_text_document, on_did_close_text_document, on_did_open_text_document,
+};
+
+/// The server's request dispatcher (`server::dispatch_request`).
+pub fn dispatch_request<TCompilationProfile: CompilationProfile>(
+    request: lsp_server::Request,
+    lsp_state: &LspState<TCompilationProfile>,
+) -> lsp_server::Response {
+    crate::server::dispatch_request_for_verif(request, lsp_state)
+}
+
+/// The server's notification dispatcher (`server::dispatch_notification`).
+pub fn dispatch_notification<TCompilationProfile: CompilationProfile>(
+    notification: lsp_server::Notification,
+    lsp_state: &mut LspState<TCompilationProfile>,
+) -> ControlFlow<Option<LSPRuntimeError>, ()> {
+    crate::server::dispatch_notification_for_verif(notification, lsp_state)
+}
+
+/// Exactly what the debounce arm of `server::run` does: validate, then publish
+/// through `lsp_state.sender`. Returns the new set of uris with diagnostics.
+pub fn debounce_tick<TCompilationProfile: CompilationProfile>(
+    lsp_state: &LspState<TCompilationProfile>,
+    uris_with_diagnostics: BTreeSet<Uri>,
+) -> BTreeSet<Uri> {
+    let diagnostics = validate_entire_schema(&lsp_state.compiler_state.db)
+        .clone_err()
+        .err()
+        .unwrap_or_default();
+
+    crate::diagnostic_notification::publish_new_diagnostics_and_clear_old_diagnostics(
+        &lsp_state.compiler_state.db,
+        &diagnostics,
+        lsp_state.sender,
+        uris_with_diagnostics,
+    )
+}
